@@ -17,7 +17,7 @@ import re
 
 import corpus
 from props import c01_gen as g
-from vlib import Check, RunnerPool, compile_job, driver, hexs, unhex, log
+from vlib import Check, RunnerPool, compile_job, driver, hexs, known_findings
 
 # --------------------------------------------------------------------------------------------
 # program generator: one statement tree, two independent printers
@@ -763,6 +763,9 @@ def run(tier, seed):
             f = shrink_pair(pool, f)
         if ck.impl_violation(f["source"] + "\n=>\n" + f.get("variant", ""), f, tags=tags):
             reported += 1
+    for kf in known_findings("C18"):
+        if kf["id"] not in [x["id"] for x in ck.known_seen]:
+            ck.notes.append(f"known finding {kf['id']} is stale: its witnesses in CORPUS no longer fail")
     if ck.cov["model_disagreements"] and not reported:
         ck.unproved("correspondence-broken", {"correspondence": "lexer positions / identifier normalisation (Grass.Lexer) vs grass",
                                               "cases": ck.disagreements})
